@@ -315,6 +315,12 @@ func (c *StandardClass) LoadForm() slip.Object {
 	return def
 }
 
+// IsFinal returns true if the class can not be redefined, which is the case
+// for the classes the application defines in go.
+func (c *StandardClass) IsFinal() bool {
+	return c.Final
+}
+
 // Ready returns true when the class is ready for use or that all superclasses
 // have been defined and merged.
 func (c *StandardClass) Ready() bool {
